@@ -169,10 +169,11 @@ def finish(report, tier, seed, t0, extra_cov=None):
     prop = report.prop
     # instance floors: a rule matching fewer sites than confirmed by hand is
     # an analysis failure, not a pass
+    floor_errors = []
     for rid, floor in report.floors.items():
         n = report.count(rid)
         if n < floor:
-            raise AnalysisError(
+            floor_errors.append(
                 f"{prop} rule {rid}: {n} obligations found, floor is {floor} "
                 f"(an anchor vanished or the rule no longer matches)"
             )
@@ -192,6 +193,11 @@ def finish(report, tier, seed, t0, extra_cov=None):
             known_hit.append((o, hit))
         else:
             new_viol.append(o)
+    if floor_errors and not new_viol:
+        # nothing else was reported: a rule that lost its instances must not pass vacuously
+        raise AnalysisError("; ".join(floor_errors))
+    for fe in floor_errors:
+        print("NOTE: " + fe + " - reported together with the violation(s) below")
     for o, k in known_hit:
         print(f"KNOWN-FINDING: property={prop} {o.rule} {o.entity} :: "
               f"{o.construct} [{o.loc}] {k.get('what', '')}".rstrip())
